@@ -127,6 +127,9 @@ let judge _id (c : cursor) (r : cursor) : bool * string =
     let gamma = List.nth mvf_all h in
     let grows = List.map (fun (e : ventry) -> e.vals) last in
     let uncert = ref 0 in
+    (* the slack is relative to the size of the values (1e-7 per unit of mass for values up to 1) *)
+    let vmax = List.fold_left (fun acc (g : ventry) -> List.fold_left (fun a x -> q_max a (q_abs x)) acc g.vals) q_one gamma in
+    let weps = q_mul weps vmax in
     List.iter (fun (g : ventry) ->
         let (y, x) = game_solve grows g.vals in
         match normalise y with
